@@ -603,10 +603,11 @@ theorem vault_write_continues_authentic (onlyNf : Bool) (padKey : Nat → Nat) (
       · split at h <;> cases h
       · cases h
 
-/-- the code as it is, conditional on the regenerated flag -/
+/-- the code as it is: the flag regenerated from autonomi/src/client/vault.rs says the repair is there (removing it
+breaks this proof) -/
 theorem vault_write_fresh_only_when_not_found (padKey : Nat → Nat) (key : Nat) (reply : Reply B)
-    (hflag : Gen.ClientRead.vaultWriteCreatesOnlyOnNotFound = true)
     (h : getOrCreate padKey key reply = .fresh) : reply = .err .notFound := by
+  have hflag : Gen.ClientRead.vaultWriteCreatesOnlyOnNotFound = true := rfl
   unfold getOrCreate at h
   rw [hflag] at h
   exact vault_write_starts_over_only_when_not_found padKey key reply h
